@@ -16,6 +16,7 @@ import (
 	"math/rand/v2"
 	"os"
 	"path/filepath"
+	"sort"
 	"strings"
 	"sync/atomic"
 	"time"
@@ -207,7 +208,7 @@ func watchdog(f func()) bool {
 func main() {
 	run := ev.Start("C07", "fault_enumeration")
 	defer run.Finish()
-	run.Rule("single faults (exhaustive): {first use, growth, refresh, refused-stale, refused-bad-proof, first-use-shaped fork on a populated log} x every storage call position x every fault kind, at the persistence interface (over in-memory and over SQLite) and at the SQL driver (begin/query/exec/commit/rollback; failed-before and reported-failed-after variants; :memory: and file) - positions learned from a fault-free dry run of the same scenario; then PRNG-drawn multi-fault histories; finally a process-level pass: a child process running the real Witness on file-backed SQLite has its N-th storage syscall (pwrite64/fsync/fdatasync/unlink/ftruncate) fail with ENOSPC or EIO, for every N of three scripts (five in thorough). After each faulted request: pool/handle quiescence, state read back with faults off, nil error => read returns exactly the returned bytes, refused scenarios leave the old checkpoint, then an honest next step from the committed state must be accepted. evaluations = faulted requests; nontrivial = distinct (level, scenario, operation, position, fault kind)")
+	run.Rule("single faults (exhaustive): {first use, growth, refresh, refused-stale, refused-bad-proof, first-use-shaped fork on a populated log} x every storage call position x every fault kind, at the persistence interface (over in-memory and over SQLite) and at the SQL driver (begin/query/exec/commit/rollback; failed-before and reported-failed-after variants; :memory: and file) - positions learned from a fault-free dry run of the same scenario; then persistent faults (every occurrence of one operation kind fails for the whole request, per level x scenario x operation); then PRNG-drawn multi-fault histories; finally a process-level pass: a child process running the real Witness on file-backed SQLite has its N-th storage syscall (pwrite64/fsync/fdatasync/unlink/ftruncate) fail with ENOSPC or EIO, for every N of three scripts (five in thorough). After each faulted request: pool/handle quiescence, state read back with faults off, nil error => read returns exactly the returned bytes, refused scenarios leave the old checkpoint, then an honest next step from the committed state must be accepted. evaluations = faulted requests; nontrivial = distinct (level, scenario, operation, position, fault kind)")
 	run.Assume("injected faults stay inside the contract of the layer they impersonate (a failing driver Commit/Rollback really rolls back, as go-sqlite3 does); driver.ErrBadConn is not injected (database/sql retries it by design)", "process-level pass: one failing storage syscall (ENOSPC or EIO) per child run, injected by strace")
 	run.Floor("single_fault_plans", 150)
 	run.Floor("multi_fault_histories", 500)
@@ -358,6 +359,77 @@ func main() {
 		}
 	})
 	run.Exhaustive(false)
+	// persistent faults: EVERY occurrence of one operation kind fails for the whole request (a disk that
+	// stays full, a lock that is not released while the request runs) - what a retry loop meets
+	type pplan struct{ level, scen, op string }
+	var pplans []pplan
+	for _, level := range []string{"iface-mem", "iface-sql", "driver-mem", "driver-file"} {
+		for _, sc := range scenarios {
+			if level[:5] == "iface" {
+				for op := range ifaceFaults {
+					pplans = append(pplans, pplan{level, sc, op})
+				}
+			} else {
+				for op := range driverFaults {
+					pplans = append(pplans, pplan{level, sc, op})
+				}
+			}
+		}
+	}
+	sort.Slice(pplans, func(i, j int) bool {
+		return pplans[i].level+pplans[i].scen+pplans[i].op < pplans[j].level+pplans[j].scen+pplans[j].op
+	})
+	run.Floor("persistent_fault_plans", int64(len(pplans)))
+	run.Units("persistent", len(pplans), 0, func(unit int64, r *rand.Rand) {
+		p := pplans[unit]
+		b, err := newBench(r, p.level, dir)
+		if err != nil {
+			run.Inconclusive(err.Error())
+			return
+		}
+		defer b.close()
+		q, err := b.scenario(p.scen)
+		if err != nil {
+			if strings.HasPrefix(err.Error(), "wedge") {
+				run.Violate("update_never_returns;fault_free_prelude", "fault-free update on "+p.level+": "+err.Error(), unit, nil)
+			} else {
+				run.Inconclusive("prelude failed: " + err.Error())
+			}
+			return
+		}
+		fired := false
+		n := 0
+		if p.level[:5] == "iface" {
+			f := ifaceFaults[p.op][0]
+			b.hook.SetHook(func(op, id string) error {
+				if b.pause.Load() || op != p.op {
+					return nil
+				}
+				fired = true
+				n++
+				return f.err
+			})
+		} else {
+			f := driverFaults[p.op][0]
+			b.plan.SetHook(func(op string, idx int, phase string) error {
+				if b.pause.Load() || op != p.op || phase != "before" {
+					return nil
+				}
+				fired = true
+				n++
+				return f.err
+			})
+		}
+		what := fmt.Sprintf("persistent/%s/%s/every_%s_fails", p.level, p.scen, p.op)
+		run.Distinct("nontrivial", what)
+		run.Count("level:" + p.level)
+		one(run, unit, b, q, what, p.scen, func() { b.hook.SetHook(nil); b.plan.SetHook(nil) }, &fired, p.op)
+		run.Count("persistent_fault_plans")
+		if fired {
+			run.Count("persistent_fault_reached")
+			run.Add("persistent_fault_occurrences", int64(n))
+		}
+	})
 	// multi-fault histories
 	run.Units("multi", run.Pick(1500, 60000), 0, func(unit int64, r *rand.Rand) {
 		level := []string{"iface-mem", "iface-sql", "driver-mem", "driver-file"}[r.IntN(4)]
